@@ -75,59 +75,7 @@ impl Path {
     pub open spec fn is_connected(&self) -> bool { connected(&self.network, self.node_sequence@) }
 }
 
-// ---- lemmas about the timing rule ------------------------------------------------------------------
-/// reach(a, b) implies end(a) <= start(b) (turnaround is never negative)
-pub proof fn lemma_reach_implies_le(net: &Network, a: NodeIdx, b: NodeIdx)
-    requires net.wf(), net.has(a), net.has(b), net.reach(a, b),
-    ensures dt_le(net.sp_node(a).sp_end_time(), net.sp_node(b).sp_start_time()),
-{
-    let n1 = net.sp_node(a); let n2 = net.sp_node(b);
-    assert(net.nodes@.contains_key(a) && net.nodes@.contains_key(b));
-    if n1 is StartDepot || n2 is EndDepot {
-    } else {
-        let d = rule_min_duration(&net.config, &net.locations, &n1, &n2);
-        lemma_min_duration_small(net, a, b);
-        lemma_dt_add_monotone(n1.sp_end_time(), d);
-    }
-}
-pub proof fn lemma_min_duration_small(net: &Network, a: NodeIdx, b: NodeIdx)
-    requires net.wf(), net.has(a), net.has(b),
-    ensures net.min_dur(a, b) is Length ==> net.min_dur(a, b)->Length_0.seconds < 0x4_0000_0000_0000,
-{
-    assert(net.nodes@.contains_key(a) && net.nodes@.contains_key(b));
-    let l1 = net.sp_node(a).sp_end_location(); let l2 = net.sp_node(b).sp_start_location();
-    if l1 is Station && l2 is Station {
-        assert(net.locations.stations@.contains_key(l1->Station_0) && net.locations.stations@.contains_key(l2->Station_0));
-    }
-}
-pub proof fn lemma_dt_add_monotone(t: DateTime, d: Duration)
-    requires dt_ok(t), dt_small(t), d is Length ==> d->Length_0.seconds < 0x4000_0000_0000_0000,
-    ensures dt_le(t, dt_add(t, d)),
-{
-    if let DateTime::Point(p) = t {
-        if let Duration::Length(l) = d {
-            let s = p.seconds as int + l.seconds as int;
-            assert(86400 * (s / 86400) + s % 86400 == s) by (nonlinear_arith);
-            assert(86400 * (p.days + s / 86400) == 86400 * p.days + 86400 * (s / 86400)) by (nonlinear_arith);
-        }
-    }
-}
-/// end(a) > start(b) rules out reach(a, b) for activities / any node pair
-pub proof fn lemma_later_end_not_reach(net: &Network, a: NodeIdx, b: NodeIdx)
-    requires net.wf(), net.has(a), net.has(b),
-        dt_lt(net.sp_node(b).sp_start_time(), net.sp_node(a).sp_end_time()),
-    ensures !net.reach(a, b),
-{
-    if net.reach(a, b) { lemma_reach_implies_le(net, a, b); }
-}
-/// start and end times of a node are ordered
-pub proof fn lemma_node_start_le_end(net: &Network, a: NodeIdx)
-    requires net.wf(), net.has(a),
-    ensures dt_le(net.sp_node(a).sp_start_time(), net.sp_node(a).sp_end_time()),
-        net.sp_node(a).sp_is_activity() ==> dt_lt(net.sp_node(a).sp_start_time(), net.sp_node(a).sp_end_time()),
-{
-    assert(net.nodes@.contains_key(a));
-}
+//@include env/reach_lemmas.vs
 /// along a connected sequence end times and start times are sorted
 pub proof fn lemma_ends_sorted(net: &Network, s: Seq<NodeIdx>, i: int, j: int)
     requires net.wf(), all_in_net(net, s), connected(net, s), 0 <= i <= j < s.len(),
